@@ -177,6 +177,18 @@ func replayOne(t *testing.T, rf *vstat.ReplayFile) string {
 	if rf.Property != "C16" {
 		return "replay file is for property " + rf.Property + ", this engine decides C16"
 	}
+	if rf.Kind == "stress" {
+		var r StressRound
+		if err := json.Unmarshal(rf.Scenario, &r); err != nil || r.Workers < 1 || r.Addrs < 1 {
+			return fmt.Sprintf("bad stress round: %v", err)
+		}
+		for i := 0; i < 50; i++ { // the schedule is not reproducible: try the workload repeatedly
+			if _, err := runStressRound(&r); err != nil {
+				return err.Error()
+			}
+		}
+		return ""
+	}
 	var sc Scenario
 	if err := json.Unmarshal(rf.Scenario, &sc); err != nil {
 		return "bad scenario: " + err.Error()
